@@ -948,10 +948,24 @@ func (i SmallInt) StrictEqualVal(other Value) Value {
 	}
 }
 
+// The magnitude of a negative shift count,
+// negating the count in its own type would wrap for the lowest value of the type.
+func shiftCountMagnitude[T SimpleInt](count T) UInt64 {
+	return UInt64(-int64(count))
+}
+
 func leftBitshiftSmallInt[T SimpleInt](i SmallInt, other T) Value {
 	var bitsize T = SmallIntBits - 1
 	if other < 0 {
-		return SmallInt(0).ToValue()
+		// the callers negate negative counts, only the lowest value
+		// of a type stays negative: shift by its magnitude
+		count := shiftCountMagnitude(other)
+		if i == 0 || count > math.MaxInt32 {
+			return SmallInt(0).ToValue()
+		}
+		iBig := big.NewInt(int64(i))
+		iBig.Lsh(iBig, uint(count))
+		return Ref(ToElkBigInt(iBig))
 	}
 	if i == 0 {
 		return SmallInt(0).ToValue()
@@ -970,7 +984,8 @@ func leftBitshiftSmallInt[T SimpleInt](i SmallInt, other T) Value {
 
 func rightBitshiftSmallInt[T SimpleInt](i SmallInt, other T) Value {
 	if other < 0 {
-		return SmallInt(0).ToValue()
+		// the negated lowest value of a type, more than all the bits
+		return (i >> (SmallIntBits - 1)).ToValue()
 	}
 	return (i >> other).ToValue()
 }
@@ -1036,6 +1051,10 @@ func (i SmallInt) LeftBitshiftBigInt(other *BigInt) Value {
 			return rightBitshiftSmallInt(i, -oSmall)
 		}
 		return leftBitshiftSmallInt(i, oSmall)
+	}
+	if other.ToGoBigInt().Sign() < 0 {
+		// a shift to the right by more than all the bits
+		return (i >> (SmallIntBits - 1)).ToValue()
 	}
 	return SmallInt(0).ToValue()
 }
@@ -1161,6 +1180,10 @@ func (i SmallInt) RightBitshiftBigInt(other *BigInt) Value {
 			return leftBitshiftSmallInt(i, -oSmall)
 		}
 		return (i >> oSmall).ToValue()
+	}
+	if !(other.ToGoBigInt().Sign() < 0) {
+		// a shift to the right by more than all the bits
+		return (i >> (SmallIntBits - 1)).ToValue()
 	}
 	return SmallInt(0).ToValue()
 }
